@@ -245,7 +245,7 @@ for st, gk in [(0, 'pawn'), (0, 'king'), (0, 'castling'), (1, 'pspecial'), (5, '
 for st, pre, gk in [(1, 3, None), (5, 3, None), (5, 4, None), (0, 3, None), (0, 1, 'king'), (2, 0, 'rook')]:
     reg('c17_walker_s%d_p%d_%s' % (st, pre, gk or 'concrete'), 'C17', T, 3600, 12,
         'stated chain (start %d, prefix %d)%s; 6 symbolic walker operations' % (st, pre, ' extended by one symbolic accepted move of group ' + gk if gk else ''),
-        'c13::walker_steps::<_, %d, %d, %d, 5>' % (st, pre, KGCODE[gk] if gk else 0), 's13', 66, bounds='chains of at most 9 moves; at most 5 walker operations',
+        'c13::walker_steps::<_, %d, %d, %d, 4>' % (st, pre, KGCODE[gk] if gk else 0), 's13', 66, bounds='chains of at most 9 moves; at most 4 walker operations',
         props=['C17', 'C04'], gen_k=(0, 0))
 reg('c14_outcome_filter_table', 'C14', QT, 300, 4, 'all outcomes x 3 filters (exhaustive)', 'c14::outcome_filter_table')
 reg('c14_chain_outcome_precedence', 'C14', QT, 900, 8, 'all board outcomes x every usize count x 3 filters', 'c14::chain_outcome_precedence', 's5', 66)
@@ -298,7 +298,7 @@ QUICK = {
     'C15': ['c15_leapers_exact', 'c15_between_exact', 'c15_bishop_exact'],
     'C16': ['c16_attackers_exact_w_by_white', 'c16_attackers_exact_w_by_black', 'c16_attackers_exact_b_by_white', 'c16_attackers_exact_b_by_black',
             'c16_check_queries_exact_w', 'c16_check_queries_exact_b'],
-    'C17': ['c17_walker_s1_p3_concrete', 'c17_walker_s5_p4_concrete', 'c17_walker_s0_p1_king'],
+    'C17': ['c17_walker_s5_p3_concrete', 'c17_walker_s0_p3_concrete'],
     'C18': ['c18_mirror_move_v_w_ep', 'c18_mirror_move_v_b_castling', 'c18_mirror_move_h_w_pspecial', 'c18_mirror_outcome_v_w', 'c18_mirror_outcome_h_b',
             'c06_semilegal_gen_pawns_all_w', 'c06_semilegal_gen_pawns_all_b'],
     'C19': ['c15_bishop_exact', 'c05_scratch_hash_def', 'c16_attackers_exact_w_by_black', 'c06_semilegal_validator_b_castling', 'c06_semilegal_validator_w_ep',
